@@ -49,7 +49,7 @@ func runC05(c *Ctx) {
 	root := NewRng(c.Seed).Fork(5)
 	parallel(nWS, 14, func(i int) {
 		r := root.Fork(uint64(i))
-		sw := GenScopeWS(r, ScopeCfg{JoinPct: -1})
+		sw := GenScopeWS(r, ScopeCfg{JoinPct: -1, GluePct: -1})
 		c.Eval(1)
 		checkC05WS(c, sw, fmt.Sprintf("c05w%d", i))
 		if i < 2 {
